@@ -157,6 +157,115 @@ def nested_coeff_diff(actual, expected, depth=0):
     return None
 
 
+def regularisers(term):
+    """Numerical 'safety' devices inside a value: ('clamp', (lo, hi), atom) and ('eps', c, atom) for a denominator / radicand
+    / log argument written as (X + c) with a small non-zero constant c (|c| <= 1e-3) next to a non-constant X.  They change the
+    value wherever X is not large against c - for unnormalised amplitudes and probabilities that is most of the parameter space."""
+    from fractions import Fraction
+
+    out = []
+    if term is None or not hasattr(term, "all_atoms"):
+        return out
+    for a in term.all_atoms():
+        if isinstance(a, T.App) and a.op == "clamp":
+            out.append(("clamp", a.args[1:], a))
+        elif isinstance(a, T.App) and a.op in ("group", "plog", "log", "sqrt") and a.args and hasattr(a.args[0], "terms"):
+            q = a.args[0]
+            c = q.terms.get((), 0)
+            if c != 0 and len(q.terms) > 1 and abs(c) <= Fraction(1, 1000):
+                out.append(("eps", c, a))
+    return out
+
+
+def strip_regularisers(term):
+    """The value with every clamp and every small additive constant (see `regularisers`) removed."""
+    from fractions import Fraction
+
+    memo = {}
+
+    def drop_eps(q):
+        c = q.terms.get((), 0)
+        if c != 0 and len(q.terms) > 1 and abs(c) <= Fraction(1, 1000):
+            return q - T.const(c)
+        return q
+
+    def sp(p):
+        if not isinstance(p, T.Poly):
+            return tuple(sp(x) for x in p) if isinstance(p, tuple) else p
+        if p in memo:
+            return memo[p]
+        total = T.ZERO
+        for mono, c in p.terms.items():
+            m = T.const(c)
+            for a, pw in mono:
+                m = m * T.powq(sa(a), pw)
+            total = total + m
+        memo[p] = total
+        return total
+
+    def sa(a):
+        if isinstance(a, T.Sym):
+            return T.P(a)
+        if isinstance(a, T.Exp):
+            return T.exp(sp(a.arg))
+        if a.op == "clamp":
+            return sp(a.args[0])
+        if a.op == "group":
+            return drop_eps(sp(a.args[0]))
+        if a.op in ("plog", "log", "sqrt") and a.args and isinstance(a.args[0], T.Poly):
+            return T.rebuild(a.op, [drop_eps(sp(a.args[0]))] + [sp(x) for x in a.args[1:]])
+        return T.rebuild(a.op, [sp(x) for x in a.args])
+
+    return sp(term)
+
+
+def regulariser_msg(regs):
+    k, d, a = regs[0]
+    if k == "clamp":
+        return "the value passes through a clamp %r: wherever the clamped quantity leaves the bounds (unnormalised weights below / above them are ordinary) the result is the bound, not the defined value" % (tuple(str(x) for x in d),)
+    return "a constant %.3g is added inside %s(...): the result is the defined value only where the regularised quantity is large against the constant" % (float(d), a.op if a.op != "group" else "a denominator")
+
+
+def unregularised(ck, rule, inst, site, name, term, key=None, allow=None):
+    """Report clamps / small additive constants inside `term` (a violation: the value is the defined one only away from them) and
+    return the term without them, so that the remaining algebra can still be decided.  allow(reg) -> True exempts one."""
+    if term is None:
+        return term
+    regs = [r for r in regularisers(term) if not (allow and allow(r))]
+    ck.check(not regs, rule, "%s:%s is not regularised" % (inst, name), site, "%s: %s" % (name, regulariser_msg(regs) if regs else ""), key=key or "%s|%s|%s regularised" % (rule, inst, name))
+    return strip_regularisers(term) if regularisers(term) else term
+
+
+def where_cases(term, limit=4):
+    """Case split of a value built with np.where / torch.where(c, a, b): yields (assignment, term) for every truth assignment
+    of the (at most `limit`) distinct conditions, each `where` replaced by the branch its condition selects.  Elementwise
+    selection: the value is right iff it is right in every case."""
+    conds = []
+    for a in term.all_atoms():
+        if isinstance(a, T.App) and a.op in ("where", "x:numpy.where", "x:torch.where") and len(a.args) == 3 and a.args[0] not in conds:
+            conds.append(a.args[0])
+    if len(conds) > limit:
+        return None
+    out = []
+    for bits in range(2 ** len(conds)):
+        asg = {i: bool(bits >> i & 1) for i in range(len(conds))}
+
+        def pick(a):
+            if isinstance(a, T.App) and a.op in ("where", "x:numpy.where", "x:torch.where") and len(a.args) == 3 and a.args[0] in conds:
+                b = a.args[1] if asg[conds.index(a.args[0])] else a.args[2]
+                return T.subst(T.P(b), pick)
+            return None
+
+        t = term
+        for _ in range(4):  # nested selections
+            t2 = T.subst(t, pick)
+            if t2 == t:
+                break
+            t = t2
+        out.append(([(str(c)[:40], asg[i]) for i, c in enumerate(conds)], t))
+    return out
+
+
 def diff_verdict(d):
     """True (pass) / False (definite) / None (undecided) from lin_diff outcome."""
     if d[0] == "equal":
@@ -251,6 +360,41 @@ def cond_truths(p, pred):
 
 def _syms(x):
     return x.syms() if hasattr(x, "syms") else set()
+
+
+_INDEX_OPS = ("nonzero", "x:numpy.flatnonzero", "x:numpy.argwhere", "x:numpy.nonzero")
+
+
+def index_truthiness(p):
+    """Branch conditions of path p that test the truth VALUE of a selection of indices (`idx.any()`, `idx.all()`, `idx.sum()`,
+    `bool(idx)` for idx = np.where(mask)[0] / np.flatnonzero(mask)) instead of their NUMBER: index 0 is falsy, so a selection
+    holding only site 0 counts as empty.  Returns [(site, text)]."""
+    out = []
+    for c in p.conds:
+        t = getattr(c[3] if len(c) > 3 else None, "term", None)
+        if t is None or not hasattr(t, "single_atom"):
+            continue
+        at = t.single_atom()
+        seen = 0
+        while isinstance(at, T.App) and seen < 4:
+            seen += 1
+            if at.op in ("any", "all", "sum", "cmp_NotEq", "cmp_Eq", "cmp_Gt", "max", "min") and at.args and hasattr(at.args[0], "single_atom"):
+                inner = at.args[0].single_atom()
+                if isinstance(inner, T.App) and inner.op in _INDEX_OPS:
+                    out.append((c[0], c[1]))
+                    break
+                at = inner
+            else:
+                break
+    return out
+
+
+def check_index_truthiness(ck, rule, inst, site, paths, what="rotated sites"):
+    for p in paths:
+        bad = index_truthiness(p)
+        ck.check(not bad, rule, "%s:emptiness of the %s is decided on their number [%s]" % (inst, what, ",".join("%s=%s" % (c[1][:18], c[2]) for c in p.conds[:2])), bad[0][0] if bad else site,
+                 "the branch `%s` tests the truth value of the selected site indices, not whether any site was selected: a selection that holds only site 0 is taken for empty "
+                 "(a basis rotated on its first site only is treated as the reference basis)" % (bad[0][1][:60] if bad else ""), key="%s|%s|index truthiness" % (rule, inst))
 
 
 def some_selected(p, where=""):
